@@ -26,6 +26,9 @@ type mutatorSpec struct {
 	start func(r *prng.Rand, f *family, p []float64) []float64
 	// apply mutates d (constructed from start) so that it represents p
 	apply func(f *family, t ad.ScalarType, d st.ScalarPdf, p []float64) error
+	// make, if set, replaces "construct from start, then apply": it returns an
+	// object that has to represent p (q = start)
+	make func(f *family, t ad.ScalarType, q, p []float64) (st.ScalarPdf, error)
 }
 
 // otherParams draws a valid parameter vector of the same length as p that
@@ -66,11 +69,64 @@ var binomialSetN = mutatorSpec{
 	},
 }
 
+// newOverwritten: construct with p, then overwrite the scalars / vectors handed
+// to the constructor with the values of another valid parameter vector.  The
+// distribution must not notice.
+var newOverwritten = mutatorSpec{
+	name:  "New+overwrite",
+	start: otherParams,
+	make: func(f *family, t ad.ScalarType, q, p []float64) (st.ScalarPdf, error) {
+		var d st.ScalarPdf
+		var err error
+		args := recording(func() { d, err = f.build(t, p) })
+		if err != nil {
+			return nil, fmt.Errorf("constructor: %v", err)
+		}
+		vals := recording(func() { f.build(t, q) })
+		args.overwrite(vals)
+		return d, nil
+	},
+}
+
+// setOverwritten: SetParameters(v), then overwrite v (the caller reuses its
+// vector for another distribution).
+var setOverwritten = mutatorSpec{
+	name:  "SetParameters+overwrite",
+	start: otherParams,
+	make: func(f *family, t ad.ScalarType, q, p []float64) (st.ScalarPdf, error) {
+		d, err := f.build(t, q)
+		if err != nil {
+			return nil, fmt.Errorf("constructor: %v", err)
+		}
+		fresh, err := f.build(t, p)
+		if err != nil {
+			return nil, fmt.Errorf("constructor: %v", err)
+		}
+		v := fresh.GetParameters().CloneVector()
+		if err := d.SetParameters(v); err != nil {
+			return nil, err
+		}
+		// the caller's vector now receives the parameters of another distribution
+		if o, err := f.build(t, q); err == nil {
+			ov := o.GetParameters()
+			for i := 0; i < v.Dim(); i++ {
+				if i < ov.Dim() && ov.At(i).GetFloat64() != v.At(i).GetFloat64() {
+					v.At(i).SetFloat64(ov.At(i).GetFloat64())
+				} else {
+					v.At(i).SetFloat64(0.75*v.At(i).GetFloat64() + 0.125)
+				}
+			}
+		}
+		return d, nil
+	},
+}
+
 func mutatorsOf(f *family) []mutatorSpec {
+	l := []mutatorSpec{setParameters, newOverwritten, setOverwritten}
 	if f.name == "binomial" {
-		return []mutatorSpec{setParameters, binomialSetN}
+		l = append(l, binomialSetN)
 	}
-	return []mutatorSpec{setParameters}
+	return l
 }
 
 type mutItem struct {
@@ -94,6 +150,9 @@ func mutateCase(cs *fw.Case, it mutItem, p []float64) {
 	pcl := f.pclass(p)
 	xs := points(f, r, p, 5)
 	via := &mutation{name: it.m.name, mk: func(t ad.ScalarType) (st.ScalarPdf, error) {
+		if it.m.make != nil {
+			return it.m.make(f, t, q, p)
+		}
 		d, err := f.build(t, q)
 		if err != nil {
 			return nil, fmt.Errorf("constructor(%v): %v", q, err)
@@ -205,7 +264,7 @@ func runMutate(c *fw.Ctx) {
 	c.Cases("mutate.directed", len(dl), func(cs *fw.Case) {
 		mutateCase(cs, dl[cs.Index].it, dl[cs.Index].p)
 	})
-	c.Cases("mutate", c.N(600, 5000), func(cs *fw.Case) {
+	c.Cases("mutate", c.N(1400, 6000), func(cs *fw.Case) {
 		it := ml[cs.Index%len(ml)]
 		var p []float64
 		for i := 0; i < 50; i++ {
